@@ -16,15 +16,44 @@ pub fn lang_custom_sv() -> Lang {
     l
 }
 
-pub const LANGS_EXT: [&str; 8] = ["none", "de", "en", "es", "fr", "pt", "ru", "sv"];
+/// custom language "xx" (see tables.rs); `late` = register half of the pairs after first use
+pub fn lang_custom_xx(late: bool) -> Lang {
+    let mut l = Lang::new();
+    let nc = tables::COMPOSE_XX.len();
+    let nr = tables::REDUCE_XX.len();
+    let (c0, r0) = if late { (nc / 2, nr / 2) } else { (nc, nr) };
+    for (d, c) in &tables::COMPOSE_XX[..c0] {
+        l.add_unicode_composition(d, c);
+    }
+    for (a, b) in &tables::REDUCE_XX[..r0] {
+        l.add_unicode_reduction(a, b);
+    }
+    if late {
+        // the language is used (a title and a query are tokenised with it) ...
+        let _ = lucid_suggest_core::tokenization::tokenize_record("wan\u{303}a ka", &l);
+        let _ = tokenize_query("n\u{303}", &l);
+        // ... and only then learns the rest of its alphabet
+        for (d, c) in &tables::COMPOSE_XX[c0..] {
+            l.add_unicode_composition(d, c);
+        }
+        for (a, b) in &tables::REDUCE_XX[r0..] {
+            l.add_unicode_reduction(a, b);
+        }
+    }
+    l
+}
+
+pub const LANGS_EXT: [&str; 10] = ["none", "de", "en", "es", "fr", "pt", "ru", "sv", "xx", "xl"];
 
 pub fn gen_lang_ext(src: &mut Source) -> &'static str {
-    LANGS_EXT[src.below(8)]
+    LANGS_EXT[src.below(10)]
 }
 
 pub fn lang_of(code: &str) -> Lang {
     match code {
         "sv" => lang_custom_sv(),
+        "xx" => lang_custom_xx(false),
+        "xl" => lang_custom_xx(true),
         "de" => lang_german(),
         "en" => lang_english(),
         "es" => lang_spanish(),
@@ -533,7 +562,7 @@ pub fn gen_limit(src: &mut Source, nrec: usize) -> usize {
 
 pub fn gen_marker(src: &mut Source, titles: &[String]) -> String {
     match src.weighted(&[4, 2, 2, 2, 1, 1, 1]) {
-        0 => src.pick(&["[", "]", "<", ">", "{{", "}}", "<b>", "</b>", "*"]).to_string(),
+        0 => src.pick(&["[", "]", "<", ">", "{{", "}}", "<b>", "</b>", "*", "\u{1b}[1m", "\u{1b}[0m", "\t", "\n", "«\u{a0}", "\u{a0}»", ">> ", " <<", " "]).to_string(),
         1 => String::new(),
         2 => {
             // a character (or word) occurring in a title
